@@ -77,7 +77,7 @@ PROPERTIES = {
         "assumptions": ["Verus rejects mutually dependent trait impls: each direction (X op Y / Y op X) is proved in its own rendering and assumes the other "
                         "(cmp@F with the reverse pairs, cmpfloat/cmpfloatrev, cmpint/cmpintrev); every assumed direction is proved in the sibling unit",
                         "a float is seen through uninterpreted nan/inf/neg/xx/dir whose meaning is the Kani contract of to_float_kind; "
-                        "`then(cmp(b, xx), dir)` is the exact ordering because |xx - exact| <= 1/2 (round to nearest) — stated, not machine-checked"],
+                        "axiom ax_nearest restates that contract (xx is within 1/2 of the exact value num / den scaled by 2^fd, dir = cmp(xx, exact)); lemma_ordf_exact then PROVES that the spec of the comparison, `then(cmp(b, xx), dir)`, is the exact ordering of b * 2^-fd and num / den"],
     },
     "C04": {
         "level": "proof",
